@@ -34,8 +34,11 @@ func verifH_C03_archived_week_unchanged_by_stats_request() {
 
 	tso := uint32(2016 * verifCase("requested_week", 0, verifTier(0, 2))) // archived week (quick); also first and second live week (thorough)
 	query := map[string]string{"timeslot_offset": verifIntTokenOf("tso", int64(tso))}
-	if verifCase("false_negatives", verifTier(1, 0), 1) == 1 {
+	switch verifCase("false_negatives", verifTier(1, 0), 2) {
+	case 1:
 		query["insert_false_negatives"] = "true"
+	case 2:
+		query["insert_false_negatives"] = verifStr("ifn", 4) // any value of the parameter up to 4 bytes ("1", "t", "TRUE", ...)
 	}
 	w := &verifRW{}
 	s.AllDeviceStatsHandler(w, verifRequest("GET", query, nil))
